@@ -251,8 +251,14 @@ pub fn run_key(cx: &Cx, mask: u32, gen: &str, key: u64, rep: &mut Report) {
                         rep.violation("C10", format!("emitted-packet-reads-as-padding:{}", inf.kind.name()), || format!("the encapsulator emitted {} whose first nibble is 0", hex_short(pkt, 24)), &replay);
                     }
                     rep.evals(2);
+                    // peek BEFORE the packet is decapsulated (receiver state = after the previous packet) ...
+                    if mask & M_C19 != 0 {
+                        let cls0 = format!("{}{}:before-decap", inf.kind.name(), if inf.has_ext { "+ext" } else { "" });
+                        check_peek(&twin, pkt, &frame[inf.off..], inf, &Err("not decapsulated yet".into()), &cls0, rep, &replay, &mut rng);
+                    }
                     let rt = dec_guard(&mut twin, pkt);
                     let cls = format!("{}{}{}", inf.kind.name(), if inf.has_ext { "+ext" } else { "" }, inf.corrupted.map(|c| format!("+{}", c)).unwrap_or_default());
+                    // ... and after it
                     if mask & M_C19 != 0 {
                         check_peek(&twin, pkt, &frame[inf.off..], inf, &rt, &cls, rep, &replay, &mut rng);
                     }
